@@ -51,6 +51,11 @@ def apply_op(L, kind, obj, op):
             return
         c03_config.call_driver(obj, False, name, a)
         return
+    if kind == "FakeBLE" and name in c03_config.REG_OF_OP and name not in ("channel", "pa_level", "payload_length", "interrupt_config", "listen", "ctx", "getters", "getp", "print"):
+        # calls that FakeBLE overrides to raise NotImplementedError (or inherits): rejected or not, the next
+        # re-entry must restore what the radio held
+        c03_config.call_driver(obj, False, name, a)
+        return
     if name == "ble_name":
         obj.name = a[0]
     elif name == "ble_show_pa":
@@ -148,7 +153,13 @@ def _strategy():
         st.tuples(st.just("interrupt_config"), b, b, b), st.tuples(st.just("listen"), b),
     ]
     common.append(st.sampled_from([("print", "pipes"), ("print", "details", True), ("print", "details", False)]))
-    ble_op = st.one_of(*common, st.tuples(st.just("ble_name"), st.sampled_from(["n", "nRF24", {"t": "none"}])),
+    rejected = st.sampled_from([("set_auto_ack", True, 1), ("set_auto_ack", True, 0), ("auto_ack", True), ("auto_ack", 0x3F), ("dynamic_payloads", True),
+                                ("set_dynamic_payloads", True, 2), ("data_rate", 2), ("data_rate", 250), ("address_length", 5), ("address_length", 3),
+                                ("ack", True), ("crc", 2), ("crc", 1), ("set_auto_retries", 250, 3), ("arc", 3), ("ard", 1000),
+                                ("allow_ask_no_ack", False), ("set_payload_length", 8, 1), ("power", False),
+                                ("open_tx_pipe", {"t": "bytes", "v": "a1a2a3a4a5"}), ("open_rx_pipe", 1, {"t": "bytes", "v": "c1c2c3c4c5"}),
+                                ("close_rx_pipe", 0)])
+    ble_op = st.one_of(*common, rejected, rejected, st.tuples(st.just("ble_name"), st.sampled_from(["n", "nRF24", {"t": "none"}])),
                        st.tuples(st.just("ble_show_pa"), b), st.just(("ble_hop",)),
                        st.tuples(st.just("payload_length"), st.integers(1, 32))).map(list)
     net_op = st.one_of(*common, st.tuples(st.just("data_rate"), st.sampled_from([1, 2, 250])),
@@ -193,7 +204,11 @@ ALPHA = {
              ["open_rx_pipe", 1, B("d1d2d3")], ["open_rx_pipe", 2, B("e1")], ["open_rx_pipe", 5, B("f1")], ["close_rx_pipe", 0],
              ["close_rx_pipe", 1], ["open_tx_pipe", B("7172737475")], ["open_tx_pipe", B("9192")], ["listen", True],
              ["listen", False], ["start_carrier_wave"]] + PRINTS,
-    "FakeBLE": COMMON + [["ble_name", "nRF24"], ["ble_show_pa", True], ["ble_hop"], ["payload_length", 20], ["channel", 26]],
+    "FakeBLE": COMMON + [["ble_name", "nRF24"], ["ble_show_pa", True], ["ble_hop"], ["payload_length", 20], ["channel", 26],
+                         ["set_auto_ack", True, 1], ["auto_ack", True], ["dynamic_payloads", True], ["set_dynamic_payloads", True, 2],
+                         ["data_rate", 2], ["address_length", 5], ["ack", True], ["crc", 1], ["set_auto_retries", 250, 3], ["arc", 3],
+                         ["allow_ask_no_ack", False], ["set_payload_length", 8, 1], ["open_tx_pipe", B("a1a2a3a4a5")],
+                         ["open_rx_pipe", 1, B("c1c2c3c4c5")], ["close_rx_pipe", 0]],
     "Network": COMMON + [["data_rate", 2], ["crc", 1], ["set_auto_retries", 1500, 3], ["node_address", 0o15], ["node_address", 0o3125],
                          ["node_address", 0], ["multicast_level", 3], ["power", False], ["set_dynamic_payloads", False, 2]],
     "Mesh": COMMON + [["data_rate", 250], ["crc", 0], ["set_auto_retries", 4000, 15], ["multicast_level", 1], ["power", False],
@@ -218,7 +233,24 @@ def _enum(depth):
     return gen
 
 
+P0_CORE = [["open_rx_pipe", 0, B("a1a2a3a4a5")], ["open_rx_pipe", 0, B("b1b2")], ["close_rx_pipe", 0], ["open_tx_pipe", B("7172737475")],
+           ["open_tx_pipe", B("a1a2a3a4a5")], ["open_tx_pipe", B("9192")], ["listen", True], ["listen", False], ["auto_ack", 0x3E]]
+
+
+def _enum_pipe0(depth):
+    """an RF24 object makes every sequence of `depth` pipe-0 / TX-address / role calls (the registers whose shadows the
+    driver juggles), another object of any class uses the radio, the first is re-entered"""
+    import itertools
+
+    def gen():
+        for w in itertools.product(P0_CORE, repeat=depth):
+            for kb in ALPHA:
+                yield {"objs": [SPECS["RF24"], SPECS[kb]],
+                       "blocks": [{"o": 0, "ops": [list(x) for x in w]}, {"o": 1, "ops": []}, {"o": 0, "ops": []}, {"o": 1, "ops": []}, {"o": 0, "ops": []}]}
+    return gen
+
+
 def parts(tier):
     if tier == "quick":
-        return [Part("enum-pairs-1x1", "enum", _enum(1), exhaustive=True), Part("generated", "gen", _strategy, n=3000)]
-    return [Part("enum-pairs-2x1", "enum", _enum(2), exhaustive=True), Part("generated", "gen", _strategy, n=40000)]
+        return [Part("enum-pairs-1x1", "enum", _enum(1), exhaustive=True), Part("enum-rf24-pipe0-words-depth3", "enum", _enum_pipe0(3), exhaustive=True), Part("generated", "gen", _strategy, n=3000)]
+    return [Part("enum-pairs-2x1", "enum", _enum(2), exhaustive=True), Part("enum-rf24-pipe0-words-depth4", "enum", _enum_pipe0(4), exhaustive=True), Part("generated", "gen", _strategy, n=40000)]
